@@ -15,6 +15,7 @@ STATUS = {
     'C16-5': ('not-kept', 'demands more than the statement (1 ulp beyond 15 significant digits)'),
     'C11-7': ('outside-asserted-domain', 'dates under AVERAGE: the statement does not say whether a date is a numeric cell'),
     'C17-15': ('not-kept', 'demands more than the statement: whole numbers beyond 2**53 given as text come back as the nearest double instead of the exact integer - an Excel number is a double (15 digits), the statement does not promise exact integers'),
+    'C15-13': ('outside-asserted-domain', 'DATE with a literal year of 1..1899: the statement says "1 January of year y"; Excel (and the unchanged tree) add 1900 to such years, the change does not - which of the two is meant is not fixed by the statement, the check asserts years 1900..9999 only'),
     'C09-12': ('changed-by-fix', 'since 30a138b a cell that holds an object is rejected at translation: the change now makes workbooks with array formulas untranslatable (C18 / C06) instead of putting an address into the text'),
 }
 rows = []
